@@ -1,5 +1,89 @@
-(* Props/C15.v — placeholder while Json/StdLoadProofs.v is being written. *)
-From Ink.Json Require Import StdLoad.
-Theorem load_story_version_missing : load_story (JObj []) = Err BadJson (T "ink version number not found").
-Proof. reflexivity. Qed.
-Print Assumptions load_story_version_missing.
+(* Props/C15.v — malformed story or save input is an error, not a crash.
+   Only statements, `exact`, Check and Print Assumptions.
+
+   Story half (json_read.rs, model Json/StdLoad.v).  The loader model is
+   parametrised by the per-site table regenerated from the source
+   (Gen/LoadGen.v: "the unwrap at this site is still there").  The theorems hold
+   for EVERY table, so they stay valid when sites are repaired; the instance
+   for the current table says which way the property goes today. *)
+From Ink.Json Require Import StdLoad StdLoadProofs.
+From Ink.Gen Require Import LoadGen.
+
+(* (1) totality: with every story-reachable site repaired, no document panics *)
+Theorem load_story_total :
+  forall panics, (forall s, story_site s = true -> panics s = false) ->
+  forall j site, load_story_gen panics j <> Panic site.
+Proof. exact (fun panics => proj2 (load_total_iff panics)). Qed.
+Check load_story_total :
+  forall panics, (forall s, story_site s = true -> panics s = false) ->
+  forall j site, load_story_gen panics j <> Panic site.
+Print Assumptions load_story_total.
+
+Theorem load_story_repaired_never_panics : forall j site, load_story_repaired j <> Panic site.
+Proof. exact load_story_repaired_total. Qed.
+Check load_story_repaired_never_panics : forall j site, load_story_repaired j <> Panic site.
+Print Assumptions load_story_repaired_never_panics.
+
+(* (2) and conversely: the loader is total EXACTLY when every story-reachable site is repaired *)
+Theorem load_story_total_iff :
+  forall panics,
+    (forall j site, load_story_gen panics j <> Panic site)
+    <-> (forall s, story_site s = true -> panics s = false).
+Proof. exact load_total_iff. Qed.
+Check load_story_total_iff :
+  forall panics,
+    (forall j site, load_story_gen panics j <> Panic site)
+    <-> (forall s, story_site s = true -> panics s = false).
+Print Assumptions load_story_total_iff.
+
+(* (3) the source as it is NOW (regenerated table): total, or refuted by a concrete document *)
+Theorem load_story_total_status :
+  if story_sites_on lsite_panics
+  then exists j site, load_story j = Panic site          (* load_story_total_refuted *)
+  else forall j site, load_story j <> Panic site.         (* load_story_total *)
+Proof. exact load_story_status_now. Qed.
+Check load_story_total_status :
+  if story_sites_on lsite_panics
+  then exists j site, load_story j = Panic site
+  else forall j site, load_story j <> Panic site.
+Print Assumptions load_story_total_status.
+
+(* D14, the two reproduced documents: "root":[]  and  "root":["",null] *)
+Theorem load_story_total_refuted_empty_root :
+  lsite_panics L_arr_last = true -> exists site, load_story (w_root (JArr [])) = Panic site.
+Proof. exact d14_empty_root. Qed.
+Check load_story_total_refuted_empty_root :
+  lsite_panics L_arr_last = true -> exists site, load_story (w_root (JArr [])) = Panic site.
+Print Assumptions load_story_total_refuted_empty_root.
+
+Theorem load_story_total_refuted_empty_string :
+  lsite_panics L_str_first_char = true -> exists site, load_story (w_content (JStr [])) = Panic site.
+Proof. exact d14_empty_string. Qed.
+Check load_story_total_refuted_empty_string :
+  lsite_panics L_str_first_char = true -> exists site, load_story (w_content (JStr [])) = Panic site.
+Print Assumptions load_story_total_refuted_empty_string.
+
+(* (4) repairing sites changes nothing for documents the current code accepts or rejects *)
+Theorem repair_is_conservative :
+  forall j, (forall s, load_story j = Ok s -> load_story_repaired j = Ok s)
+         /\ (forall k m, load_story j = Err k m -> load_story_repaired j = Err k m).
+Proof. exact (fun j => conj (repair_conservative_ok j) (repair_conservative_err j)). Qed.
+Check repair_is_conservative :
+  forall j, (forall s, load_story j = Ok s -> load_story_repaired j = Ok s)
+         /\ (forall k m, load_story j = Err k m -> load_story_repaired j = Err k m).
+Print Assumptions repair_is_conservative.
+
+(* non-vacuity *)
+Theorem a_story_loads : is_ok (load_story tiny_story) = true /\ is_ok (load_story_repaired tiny_story) = true.
+Proof. exact tiny_story_loads. Qed.
+Print Assumptions a_story_loads.
+
+(* ---------------------------------------------------------------------------
+   SLOT (save-state half): load_state_total : forall W j, Inv W -> load_state W j <> Panic _
+   and failed_load_then_reset need Engine/State.v + the model of
+   StoryState::load_json / Flow::from_json / CallStack / VariablesState::load_json
+   (lead).  The helpers they call are modelled and covered by the table above:
+   jarray_to_obj_list (L_objlist_skip_last), jobject_to_hashmap_values
+   (L_hashmap_value), jobject_to_int_hashmap (L_int_hashmap_val), jobject_to_choice.
+   Until then the save half is explored on the implementation only (tools/props/c15.py).
+   --------------------------------------------------------------------------- *)
